@@ -12,9 +12,9 @@ echo "demo=$DEMO pkg=$PKG src=$SRC"
 cd $WT/$MOD
 go build ./... && go vet ./... >/dev/null 2>&1; echo "build+vet rc=$?"
 go test -count=1 -run 'Mutation|mutation|Demo' $PKG > /tmp/mut-$ID.with.log 2>&1; W=$?
-( cd $WT && git stash push -q -- $SRC )
+( cd $WT && git apply -R MUTATION/patch.diff )
 go test -count=1 -run 'Mutation|mutation|Demo' $PKG > /tmp/mut-$ID.without.log 2>&1; WO=$?
-( cd $WT && git stash pop -q )
+( cd $WT && git apply MUTATION/patch.diff )
 mv $WT/$DEMO /tmp/mut-$ID.demo.hold
 go test -count=1 ./... > /tmp/mut-$ID.suite.log 2>&1; S=$?
 mv /tmp/mut-$ID.demo.hold $WT/$DEMO
